@@ -205,6 +205,29 @@ func docSerials2(pj *simdjson.ParsedJson) ([]int, error) {
 	return out, err
 }
 
+// chunkReader hands out at most n bytes per Read.
+type chunkReader struct {
+	data []byte
+	n    int
+	pos  int
+}
+
+func (c *chunkReader) Read(p []byte) (int, error) {
+	if c.pos >= len(c.data) {
+		return 0, io.EOF
+	}
+	k := c.n
+	if k > len(p) {
+		k = len(p)
+	}
+	if c.pos+k > len(c.data) {
+		k = len(c.data) - c.pos
+	}
+	copy(p, c.data[c.pos:c.pos+k])
+	c.pos += k
+	return k, nil
+}
+
 func vconc(args []string) error {
 	fs := flag.NewFlagSet("v-conc", flag.ExitOnError)
 	out := fs.String("out", "-", "report")
@@ -329,6 +352,52 @@ func vconc(args []string) error {
 			}
 			it := pj.Iter()
 			want, _ := it.MarshalJSON()
+			if g%3 == 2 {
+				// every third goroutine streams its own NDJSON through ParseNDStream (package-level chunk pool) instead
+				var sb strings.Builder
+				var wantAll []byte
+				for i := 0; i < 40; i++ {
+					line := fmt.Sprintf(`{"g":%d,"i":%d,"s":"%s"}`, g, i, strings.Repeat(string(rune('a'+(g+i)%26)), 5+i))
+					sb.WriteString(line + "\n")
+					wantAll = append(append(wantAll, line...), '\n')
+				}
+				data := []byte(sb.String())
+				for k := 0; time.Now().Before(deadline); k++ {
+					res := make(chan simdjson.Stream, 4)
+					var reuse chan *simdjson.ParsedJson
+					if k%2 == 1 {
+						reuse = make(chan *simdjson.ParsedJson, 4)
+					}
+					simdjson.ParseNDStream(&chunkReader{data: data, n: 37 + g%19}, res, reuse)
+					var gotAll []byte
+					var serr error
+					for st := range res {
+						if st.Error != nil {
+							if st.Error != io.EOF {
+								serr = st.Error
+							}
+							continue
+						}
+						st.Value.ForEach(func(i simdjson.Iter) error {
+							m, _ := i.MarshalJSON()
+							gotAll = append(append(gotAll, m...), '\n')
+							return nil
+						})
+						if reuse != nil {
+							select {
+							case reuse <- st.Value:
+							default:
+							}
+						}
+					}
+					atomic.AddInt64(&hammerOps, 1)
+					if serr != nil || !bytes.Equal(gotAll, wantAll) {
+						atomic.AddInt64(&hammerBad, 1)
+						firstBad.CompareAndSwap(nil, fmt.Sprintf("goroutine %d stream %d: err=%v got %d bytes want %d: %.120s", g, k, serr, len(gotAll), len(wantAll), gotAll))
+					}
+				}
+				return
+			}
 			s, d := simdjson.NewSerializer(), simdjson.NewSerializer()
 			var dst *simdjson.ParsedJson
 			for k := 0; time.Now().Before(deadline); k++ {
